@@ -397,7 +397,7 @@ func HTTPRequest(req *Req, obs *Obs) *http.Request {
 	}
 	hr := &http.Request{
 		Method:     req.Method,
-		URL:        &url.URL{Path: req.Path},
+		URL:        &url.URL{Path: req.Path, RawPath: req.RawPath},
 		Proto:      "HTTP/1.1",
 		ProtoMajor: 1,
 		ProtoMinor: 1,
